@@ -34,7 +34,7 @@
      imm_handler limit ours h tl .. := the two immediate-assignment handlers: guards, copy into the zeroed cd_now if the request
                             reference is ours, then gsm48_rr_dl_est -> gsm48_rr_render_ma (h = hopping channel description). *)
 From Coq Require Import ZArith List.
-From OBB Require Import Base.Range Gen.MobAllocConst Gen.MobAllocSi4Const Model.MobAlloc Model.MobAllocSi4 Model.MobAllocHist Model.MobAllocAss Proofs.MobAllocP Proofs.MobAllocSi4P Proofs.MobAllocHistP Proofs.MobAllocAssP.
+From OBB Require Import Base.Range Gen.MobAllocConst Gen.MobAllocSi4Const Model.MobAlloc Model.MobAllocSi4 Model.MobAllocHist Model.MobAllocAss Model.MobAllocCd Proofs.MobAllocP Proofs.MobAllocSi4P Proofs.MobAllocHistP Proofs.MobAllocAssP Proofs.MobAllocCdP.
 Import ListNotations.
 Open Scope Z_scope.
 
@@ -364,6 +364,73 @@ Theorem c20_assign_imm_in_bounds : forall limit ours h tl freq ma ma_len,
   exists lv rc s, imm_handler limit ours h tl freq ma ma_len = AsEst lv (Ok rc s) /\ Zlength lv = 9 /\ zn lv 0 <= limit.
 Proof. exact imm_safe. Qed.
 Print Assumptions c20_assign_imm_in_bounds.
+
+(* ==================================================================== gsm48_rr_render_ma with the Cell Channel Description *)
+(* render_ma_cd lv cdlv other freq ma ma_len (Model/MobAllocCd.v) := the mobile-allocation branch with cd->cell_desc_lv (cdlv, 17 octets:
+   length + 16).  gsm48_decode_freq_list (vendored gsm48_ie.c) first CLEARS FREQ_TYPE_SERV (0x01) on all 1024 entries and then sets it
+   on the listed ARFCNs - the table is s->freq itself, so the cell allocation in force afterwards is the description's, not a union.
+     bm0_table freq cd := the table after the call for the bit map 0 format (first octet < 0x40 for mask 0xce)
+     bm0_has cd a      := 1 <= a <= 124 and bit ((a-1) mod 8) of octet cd[15 - (a-1)/8] is set          (44.018 10.5.2.1b)
+     other_table freq other := the table after the call for the other formats, 'other' = the ARFCNs the real decoder flags (an
+                          explicit argument: the range / variable bit map decoders are not modelled)
+   1 = GSM48_RR_CAUSE_ABNORMAL_UNSPEC as compiled from the vendored gsm_04_08.h. *)
+
+Theorem c20_render_cd_constants : c_CAUSE_ABNORMAL_UNSPEC = 1 /\ c_CELL_DESC_LV_SIZE = 17 /\ c_CAUSE_NO_CELL_ALLOC_A = 101 /\ c_FREQ_TYPE_SERV = 1.
+Proof. exact cd_constants. Qed.
+Print Assumptions c20_render_cd_constants.
+
+(* length octet 0: no description - exactly the branch without it (c20_render_spec etc. apply), the table is not touched *)
+Theorem c20_render_cd_absent : forall lv x other freq ma ma_len,
+  render_ma_cd lv (0 :: x) other freq ma ma_len = render_ma lv freq ma ma_len.
+Proof. exact render_cd_absent. Qed.
+Print Assumptions c20_render_cd_absent.
+
+(* any length other than 0 and 16: cause 1 (abnormal), ma[] / ma_len / the table untouched *)
+Theorem c20_render_cd_wrong_length : forall l v cl x other freq ma ma_len, l <> 0 -> cl <> 0 -> cl <> 16 ->
+  render_ma_cd (l :: v) (cl :: x) other freq ma ma_len = Ok 1 (mkst freq ma ma_len).
+Proof. exact render_cd_wrong_len. Qed.
+Print Assumptions c20_render_cd_wrong_length.
+
+(* length 16, bit map 0 format: the table in force becomes bm0_table freq cd and the list handed to L1 is spec_hopping of THAT table *)
+Theorem c20_render_cd_bitmap0 : forall l v cd other freq ma ma_len,
+  1 <= l <= 8 -> l <= Zlength v -> Zlength cd = 16 -> 0 <= zn cd 0 < 64 -> Zlength freq = 1024 -> Zlength ma = 64 ->
+  render_ma_cd (l :: v) (16 :: cd) other freq ma ma_len =
+    Ok (if Zlength (spec_hopping (bm0_table freq cd) v l) <? 1 then 101 else 0)
+       (mkst (bm0_table freq cd)
+             (spec_hopping (bm0_table freq cd) v l ++ skipn (length (spec_hopping (bm0_table freq cd) v l)) ma)
+             (Zlength (spec_hopping (bm0_table freq cd) v l))).
+Proof. exact render_cd_bm0. Qed.
+Print Assumptions c20_render_cd_bitmap0.
+
+(* which table that is: its cell allocation is exactly the description's set (whatever SI1 had flagged is cleared) ... *)
+Theorem c20_render_cd_allocation_in_force : forall freq cd a, Zlength freq = 1024 -> 0 <= a < 1024 ->
+  serving (bm0_table freq cd) a = bm0_has cd a.
+Proof. exact bm0_serving. Qed.
+Print Assumptions c20_render_cd_allocation_in_force.
+
+(* ... and every other mask bit is as before *)
+Theorem c20_render_cd_masks : forall freq cd a, Zlength freq = 1024 -> 0 <= a < 1024 -> 0 <= zn freq a < 256 ->
+  zn (bm0_table freq cd) a = if bm0_has cd a then Z.lor (Z.land (zn freq a) 254) 1 else Z.land (zn freq a) 254.
+Proof. exact bm0_masks. Qed.
+Print Assumptions c20_render_cd_masks.
+
+(* length 16, another format (first octet >= 0x40): the same with the table the real decoder leaves, given by the ARFCNs it flags *)
+Theorem c20_render_cd_other_format : forall l v cd other freq ma ma_len,
+  1 <= l <= 8 -> l <= Zlength v -> 1 <= Zlength cd -> 64 <= zn cd 0 < 256 -> Zlength freq = 1024 -> Zlength ma = 64 ->
+  render_ma_cd (l :: v) (16 :: cd) other freq ma ma_len =
+    Ok (if Zlength (spec_hopping (other_table freq other) v l) <? 1 then 101 else 0)
+       (mkst (other_table freq other)
+             (spec_hopping (other_table freq other) v l ++ skipn (length (spec_hopping (other_table freq other) v l)) ma)
+             (Zlength (spec_hopping (other_table freq other) v l))).
+Proof. exact render_cd_other. Qed.
+Print Assumptions c20_render_cd_other_format.
+
+(* in bounds for EVERY content of mob_alloc_lv[9] and cell_desc_lv[17] *)
+Theorem c20_render_cd_in_bounds : forall lv cdlv other freq ma ma_len,
+  Zlength lv = 9 -> Zlength cdlv = 17 -> octets lv -> octets cdlv -> Zlength freq = 1024 -> Zlength ma = 64 ->
+  exists rc s, render_ma_cd lv cdlv other freq ma ma_len = Ok rc s.
+Proof. exact render_cd_safe. Qed.
+Print Assumptions c20_render_cd_in_bounds.
 
 From OBB Require Import Gen.TrxIfConst Model.Trxd Model.TrxIf Proofs.TrxIfSetfhP.
 (* ---- the consumer at the far end: trxcon's SETFH composer (trx_if_cmd_setfh in trx_if.c, model Model/TrxIf.v) ----
